@@ -624,7 +624,8 @@ fn prop_c08(class: &str) -> Option<&'static str> {
 /// into the free list) while the allocating call was in flight must still come back zero-filled.
 pub fn c08_concurrent(run: &Run, thorough: bool) {
   use TOp::*;
-  let menu: Vec<Vec<TOp>> = vec![vec![B(16)], vec![B(16), DropOwn], vec![B(24)], vec![BO(16), DropOwn], vec![B(16), DropOwn, B(16)], vec![DropPre(1)], vec![B(8), B(8)]];
+  // (B(30): more than the 27 data bytes of a 40-byte block released at an odd offset, less than the 32 an unpadded count gives)
+  let menu: Vec<Vec<TOp>> = vec![vec![B(16)], vec![B(16), DropOwn], vec![B(24)], vec![BO(16), DropOwn], vec![B(16), DropOwn, B(16)], vec![DropPre(1)], vec![B(8), B(8)], vec![B(30)], vec![B(16), DropOwn, B(24)]];
   let mut items = vec![];
   for fl in [Fl::Optimistic, Fl::Pessimistic, Fl::None] {
     // (fresh bytes left, cursor residue, free-list shape)
